@@ -66,6 +66,15 @@ fn universe(nums: &[&str], ids: &[&str], max_list: usize, builds: &[&str]) -> Ve
         .collect()
 }
 
+/// versions from a list of texts (same rejection rule as `universe`)
+fn from_texts(texts: Vec<String>) -> Vec<V> {
+    texts.into_iter().filter_map(|t| {
+        let z = match SemVer::from_str(&t) { Ok(z) => z, Err(e) => { REJECTED.lock().unwrap().push((t.clone(), e.to_string())); return None; } };
+        let r = rsv::parse(&t).unwrap_or_else(|| machinery_error(&format!("universe member {t:?} rejected by the model")));
+        Some(V { text: t, z, r })
+    }).collect()
+}
+
 fn rev(o: Ordering) -> Ordering {
     o.reverse()
 }
@@ -204,12 +213,24 @@ fn main() {
     let s_build = check_pairs(&ctx, &u_build);
     let u_wide = universe(&["0", "9", "10", "4294967296", "9999999999999999999", "18446744073709551615"], &["9", "10", "18446744073709551615", "a", "-", "1000000000000000000", "9000000000000000000", "10000000000000000000", "9999999999999999999",
         // numeric identifiers that no longer fit u64 (kept as digit text by the parser): still numeric, still below every alphanumeric one
-        "18446744073709551616", "99999999999999999999", "100000000000000000000000"], if quick { 1 } else { 2 }, &[""]);
+        "18446744073709551616", "99999999999999999999", "100000000000000000000000",
+        // alphanumeric identifiers that start with a digit run above u64 (time-stamp + hash ids): letters make them alphanumeric
+        "99999999999999999999a", "18446744073709551616-x", "1844674407370955161a", "20240315123045123456-g1a2b3c4"], if quick { 1 } else { 2 }, &[""]);
     let s_wide = check_pairs(&ctx, &u_wide);
     // hyphenated identifiers: one alphanumeric identifier each in SemVer 2.0.0, never a separator
     let u_hyph = universe(&["0", "1"], &["rc", "rc-2", "rc-10", "2", "10", "1-0", "-", "rc-", "-1", "a-b", "0-0", "01a", "00x", "007f3a2", "00-1", "0a"], 2, &[""]);
     let s_hyph = check_pairs(&ctx, &u_hyph);
 
+    // dense numeric sweeps: every value 0..=K in one position at a time (core numbers, a numeric identifier in first and
+    // second place, the number glued to a label, where the order is textual): all ordered pairs per position
+    let k = if quick { 1200usize } else { 5000 };
+    let mut s_sweep = Stats::default();
+    let mut sweep_states = 0u64;
+    for shape in ["{N}.0.0", "1.{N}.0", "1.0.{N}", "1.0.0-{N}", "1.0.0-a.{N}", "1.0.0-rc{N}", "1.0.0-{N}a", "{N}.{N}.{N}-{N}.{N}"] {
+        let u = from_texts((0..=k).map(|n| shape.replace("{N}", &n.to_string())).collect());
+        sweep_states += u.len() as u64;
+        s_sweep = s_sweep.merge(check_pairs(&ctx, &u));
+    }
     // sub-universes for triples and max-tag: a strided selection of u_build (keeps build variants and equal-precedence members)
     let tri_n = if quick { 160 } else { 600 };
     let stride = (u_build.len() / tri_n).max(1);
@@ -251,15 +272,15 @@ fn main() {
     // determinism replay on the build universe
     if check_pairs(&ctx, &u_build).digest != s_build.digest { machinery_error("determinism replay diverged"); }
 
-    let all = s_main.clone().merge(s_build.clone()).merge(s_wide.clone()).merge(s_hyph).merge(s_tri.clone()).merge(s_mt.clone()).merge(s_names);
+    let all = s_main.clone().merge(s_build.clone()).merge(s_wide.clone()).merge(s_hyph).merge(s_tri.clone()).merge(s_mt.clone()).merge(s_names).merge(s_sweep);
     for (t, e) in REJECTED.lock().unwrap().iter() { ctx.violation("universe_member_rejected", format!("{t:?}"), json!({"kind":"member","text":t}), format!("the real parser rejects this spelling of a valid version: {e}")); }
     let mut cov = Coverage::default();
-    cov.states = (u_main.len() + u_build.len() + u_wide.len() + u_hyph.len()) as u64;
+    cov.states = (u_main.len() + u_build.len() + u_wide.len() + u_hyph.len()) as u64 + sweep_states;
     cov.transitions = all.get("pairs");
     cov.evaluations = all.get("pairs") + all.get("triples") + all.get("max_tag_sets");
     cov.traces_validated = cov.evaluations;
     cov.distinct_nontrivial = all.get("want_less") + all.get("want_greater");
-    cov.rule = format!("versions are built as strings and parsed by the real parser; universe U1 = core numbers {nums:?}^3 x pre-release lists of length <=3 over {ids:?} ({} versions, all ordered pairs vs the reference comparator); U2 adds build metadata variants ({}), U3 wide numbers up to u64::MAX in the core and up to 24 digits in identifiers ({}); U4 hyphenated identifiers (rc-2, rc-10, 1-0, -, ...) in lists of length <=2 ({}); all ordered triples of a {}-element sub-universe (transitivity, no reference); find_max_version_tag on all ordered selections of <=3 tags from {} versions, and through the real tag filter on all ordered selections of <=3 (thorough 4) names from a pool of 10 that mixes SemVer tags with non-SemVer names. non-trivial = ordered pairs whose precedence differs (not Equal)", u_main.len(), u_build.len(), u_wide.len(), u_hyph.len(), sub.len(), sub2.len());
+    cov.rule = format!("versions are built as strings and parsed by the real parser; universe U1 = core numbers {nums:?}^3 x pre-release lists of length <=3 over {ids:?} ({} versions, all ordered pairs vs the reference comparator); U2 adds build metadata variants ({}), U3 wide numbers up to u64::MAX in the core and up to 24 digits in identifiers ({}); U4 hyphenated identifiers (rc-2, rc-10, 1-0, -, ...) in lists of length <=2 ({}); U5 dense sweeps: every number 0..={k} in each of 8 positions (core numbers, numeric identifier first / second, glued to a label before and after), all ordered pairs per position; all ordered triples of a {}-element sub-universe (transitivity, no reference); find_max_version_tag on all ordered selections of <=3 tags from {} versions, and through the real tag filter on all ordered selections of <=3 (thorough 4) names from a pool of 10 that mixes SemVer tags with non-SemVer names. non-trivial = ordered pairs whose precedence differs (not Equal)", u_main.len(), u_build.len(), u_wide.len(), u_hyph.len(), sub.len(), sub2.len());
     cov.exhaustive = true;
     cov.samples = vec![json!({"a": u_main[u_main.len()/3].text, "b": u_main[u_main.len()/2].text}), json!({"a": u_build[5].text, "b": u_build[6].text}), json!({"a": u_wide[u_wide.len()-1].text, "b": u_wide[u_wide.len()/2].text})];
     cov.set("clause_counts", all.to_json());
